@@ -826,6 +826,24 @@ func (e *e1) addRelevant(clauses ...string) {
 			for _, a := range alt {
 				if a.K == "fact" {
 					e.relevant = append(e.relevant, a)
+					// the body of a quantified requirement is established element by element inside helpers
+					if (a.S == "all" || a.S == "some") && len(a.A) == 2 && a.A[1].K == "fact" {
+						var wild func(t *Term) *Term
+						wild = func(t *Term) *Term {
+							if t.K == "elem" || t.K == "key" {
+								return mk("wild", "")
+							}
+							if len(t.A) == 0 {
+								return t
+							}
+							n := &Term{K: t.K, S: t.S, Obj: t.Obj}
+							for _, x := range t.A {
+								n.A = append(n.A, wild(x))
+							}
+							return n
+						}
+						e.relevant = append(e.relevant, wild(a.A[1]))
+					}
 				}
 			}
 		}
